@@ -179,14 +179,18 @@ fn verif_native_feature_gate() {
     verif_out(&format!("VERIF-NATIVE name={} evaluated={} distinct={}", name, evaluated, evaluated));
 }
 
-/// C19: every ordered triple over 9 sources (forward reference first, dangling reference, valid, failing in the lexer, failing in the parser after labels were recorded,
+/// C19: every ordered triple over 11 sources (forward reference first, dangling reference, valid, failing in the lexer, failing in the parser after labels were recorded,
 /// failing at backpatch, sharing label names, using .orig/.break) assembled in ONE thread with reset_state() in between:
 /// each result equals the result of assembling that source first (repeatability included: the triple may repeat a source)
 #[test]
 fn verif_native_assembly_pure() {
     let name = "verif_native_assembly_pure";
     init_features();
-    let srcs: [&'static str; 9] = [
+    let srcs: [&'static str; 11] = [
+        // a forward reference to a name nobody defines, then a failure in the PARSER (backpatching never runs); and one that
+        // fails in the parser right after a forward reference to a name another source defines
+        "ld r0, later\nadd r0, r0\nlater halt\n",
+        "br a\nnot r1\n",
         // forward reference before any definition / dangling reference to a name other sources define
         "ld r0, b\nadd r0,r0,#1\nhalt\nb .fill x7\n",
         "lea r1, a\nhalt\n",
@@ -200,7 +204,7 @@ fn verif_native_assembly_pure() {
     ];
     let fresh: Vec<Result<Vec<u16>, ()>> = srcs.iter().map(|s| { let s: &'static str = s; std::thread::spawn(move || { init_features(); image_of_noreset(s) }).join().unwrap() }).collect();
     let mut evaluated = 0u64;
-    for i in 0..9 { for j in 0..9 { for k in 0..9 {
+    for i in 0..srcs.len() { for j in 0..srcs.len() { for k in 0..srcs.len() {
         evaluated += 1;
         crate::symbol::reset_state();
         let seq = [i, j, k];
@@ -378,7 +382,7 @@ fn verif_native_assemble_encodes() {
 }
 
 /// C01 / C04 at PROGRAM level (the contract of `parse` itself is about numbering and the symbol table; what goes into which
-/// statement is proved per helper): EVERY sequence of <= 4 lines over 15 lines — instructions, label definitions and uses in
+/// statement is proved per helper): EVERY sequence of <= 4 lines over 16 lines — instructions, label definitions and uses in
 /// both orders, a duplicate definition, an undefined reference, `.orig`, `.fill`, `.blkw`, `.stringz`, `.break` — is assembled
 /// and compared with a reference written here: accepted iff no label is defined twice, every referenced label is defined and
 /// `.orig` appears at most once; the image is the origin word then the words of each line in order, label operands encoding
@@ -389,7 +393,7 @@ fn verif_native_program_layout() {
     init_features();
     // (text, label defined, label referenced with (opcode bits, field width), words: fixed part; a reference line has one word)
     struct L { text: &'static str, def: Option<&'static str>, refs: Option<(&'static str, u16, u32)>, words: &'static [u16], orig: Option<u16> }
-    let pool: [L; 15] = [
+    let pool: [L; 16] = [
         L { text: "add r1,r2,#3", def: None, refs: None, words: &[0x12A3], orig: None },
         L { text: "lbl add r0,r0,#1", def: Some("lbl"), refs: None, words: &[0x1021], orig: None },
         L { text: "two: not r3,r3", def: Some("two"), refs: None, words: &[0x96FF], orig: None },
@@ -397,7 +401,8 @@ fn verif_native_program_layout() {
         L { text: "ld r3, two", def: None, refs: Some(("two", 0x2600, 9)), words: &[], orig: None },
         L { text: "jsr lbl", def: None, refs: Some(("lbl", 0x4800, 11)), words: &[], orig: None },
         L { text: "me st r1, me", def: Some("me"), refs: Some(("me", 0x3200, 9)), words: &[], orig: None },
-        L { text: ".orig x4000", def: None, refs: None, words: &[], orig: Some(0x4000) },
+        L { text: ".orig xC000", def: None, refs: None, words: &[], orig: Some(0xC000) },
+        L { text: ".orig x3000", def: None, refs: None, words: &[], orig: Some(0x3000) },   // the default value, given explicitly
         L { text: ".fill xBEEF", def: None, refs: None, words: &[0xBEEF], orig: None },
         L { text: "d .blkw #2", def: Some("d"), refs: None, words: &[0, 0], orig: None },
         L { text: ".stringz \"hi\"", def: None, refs: None, words: &[0x68, 0x69, 0], orig: None },
